@@ -83,6 +83,24 @@ def abstract_cell(rng: random.Random, max_N: int = 12, max_nlp: int = 12, min_nl
                 tp[r, relabel[cell.canon(b, g)]] = relabel[cell.canon(b, g2)]
     cell.tp = tp
     if with_dist:
+        cell.dist = _distance_table(rng, cell, pts, n_shells)
+    return cell
+
+
+def redistance(rng: random.Random, cell: "AbstractCell", n_shells: int = 5) -> "AbstractCell":
+    """a sibling of `cell`: the SAME atoms, order and translation permutations, another (symmetric, translation
+    invariant) distance table — e.g. the same supercell at another volume"""
+    import copy
+    sib = copy.copy(cell)
+    pts = list(itertools.product(*[range(d) for d in cell.dims]))
+    sib.dist = _distance_table(rng, cell, pts, n_shells)
+    return sib
+
+
+def _distance_table(rng, cell, pts, n_shells):
+    dims, n_a, relabel = cell.dims, cell.n_a, cell.relabel
+    N = n_a * len(pts)
+    if True:
         # f(b, b', delta) symmetric under (b,b',delta) -> (b',b,-delta); d(i,i) = 0; others >= 1
         table = {}
         dist = np.zeros((N, N), dtype=int)
@@ -106,8 +124,7 @@ def abstract_cell(rng: random.Random, max_N: int = 12, max_nlp: int = 12, min_nl
                     for g2 in pts:
                         d = tuple((g2[k] - g[k]) % dims[k] for k in range(3))
                         dist[relabel[cell.canon(b, g)], relabel[cell.canon(b2, g2)]] = table[(b, b2, d)]
-        cell.dist = dist
-    return cell
+    return dist
 
 
 # --------------------------------------------------------------------------------------
